@@ -54,6 +54,13 @@ func ProcessBulk(ctx context.Context, l backend.Ledger, bulk Bulk, continueOnFai
 	}
 
 	for i, element := range bulk {
+		// an element whose payload does not decode fails like any other element: it gets
+		// its error result at its position, and the results of the elements already
+		// executed are kept
+		parseFailed := func(err error) (stop bool) {
+			bulkError(element.Action, ErrValidation, fmt.Errorf("error parsing element %d: %s", i, err))
+			return !continueOnFailure
+		}
 		parameters := command.Parameters{
 			DryRun:         false,
 			IdempotencyKey: element.IdempotencyKey,
@@ -63,7 +70,10 @@ func ProcessBulk(ctx context.Context, l backend.Ledger, bulk Bulk, continueOnFai
 		case ActionCreateTransaction:
 			req := &ledger.TransactionRequest{}
 			if err := json.Unmarshal(element.Data, req); err != nil {
-				return nil, errorsInBulk, fmt.Errorf("error parsing element %d: %s", i, err)
+				if parseFailed(err) {
+					return ret, errorsInBulk, nil
+				}
+				continue
 			}
 			rs := req.ToRunScript()
 
@@ -96,7 +106,10 @@ func ProcessBulk(ctx context.Context, l backend.Ledger, bulk Bulk, continueOnFai
 			}
 			req := &addMetadataRequest{}
 			if err := json.Unmarshal(element.Data, req); err != nil {
-				return nil, errorsInBulk, fmt.Errorf("error parsing element %d: %s", i, err)
+				if parseFailed(err) {
+					return ret, errorsInBulk, nil
+				}
+				continue
 			}
 
 			var targetID any
@@ -107,7 +120,10 @@ func ProcessBulk(ctx context.Context, l backend.Ledger, bulk Bulk, continueOnFai
 				targetID = big.NewInt(0)
 			}
 			if err := json.Unmarshal(req.TargetID, &targetID); err != nil {
-				return nil, errorsInBulk, err
+				if parseFailed(err) {
+					return ret, errorsInBulk, nil
+				}
+				continue
 			}
 
 			if err := l.SaveMeta(ctx, parameters, req.TargetType, targetID, req.Metadata); err != nil {
@@ -134,7 +150,10 @@ func ProcessBulk(ctx context.Context, l backend.Ledger, bulk Bulk, continueOnFai
 			}
 			req := &revertTransactionRequest{}
 			if err := json.Unmarshal(element.Data, req); err != nil {
-				return nil, errorsInBulk, fmt.Errorf("error parsing element %d: %s", i, err)
+				if parseFailed(err) {
+					return ret, errorsInBulk, nil
+				}
+				continue
 			}
 
 			tx, err := l.RevertTransaction(ctx, parameters, req.ID, req.Force)
@@ -164,7 +183,10 @@ func ProcessBulk(ctx context.Context, l backend.Ledger, bulk Bulk, continueOnFai
 			}
 			req := &deleteMetadataRequest{}
 			if err := json.Unmarshal(element.Data, req); err != nil {
-				return nil, errorsInBulk, fmt.Errorf("error parsing element %d: %s", i, err)
+				if parseFailed(err) {
+					return ret, errorsInBulk, nil
+				}
+				continue
 			}
 
 			var targetID any
@@ -175,7 +197,10 @@ func ProcessBulk(ctx context.Context, l backend.Ledger, bulk Bulk, continueOnFai
 				targetID = big.NewInt(0)
 			}
 			if err := json.Unmarshal(req.TargetID, &targetID); err != nil {
-				return nil, errorsInBulk, err
+				if parseFailed(err) {
+					return ret, errorsInBulk, nil
+				}
+				continue
 			}
 
 			err := l.DeleteMetadata(ctx, parameters, req.TargetType, targetID, req.Key)
